@@ -934,6 +934,8 @@ class sptensor:
             else:
                 [subsOther, valsOther] = other.find()
                 valsSelf = np.reshape(self[subsOther], (-1, 1))
+            if valsOther.dtype == bool and valsSelf.dtype == bool:
+                valsSelf = valsSelf.astype(int)
             return valsOther.transpose().dot(valsSelf).item()
 
         if isinstance(other, ttb.tensor):
@@ -941,6 +943,8 @@ class sptensor:
                 assert False, "Sptensor and tensor must be same shape for innerproduct"
             [subsSelf, valsSelf] = self.find()
             valsOther = np.reshape(other[subsSelf], (-1, 1))
+            if valsOther.dtype == bool and valsSelf.dtype == bool:
+                valsSelf = valsSelf.astype(int)
             return valsOther.transpose().dot(valsSelf).item()
 
         if isinstance(other, (ttb.ktensor, ttb.ttensor)):  # pragma: no cover
